@@ -274,7 +274,7 @@ def suite_c02bytes(r, n):
                     if r.chance(50) or len(fields) < 2: v, variant = ("(", {}), "union0"
                     else:
                         f1, f2 = r.shuffle(fields)[:2]
-                        v, variant = ("(", {f1[0]: limit1(p, f1[3], gen_val(r, p, f1[3], 2)), f2[0]: limit1(p, f2[3], gen_val(r, p, f2[3], 2))}), "union2"
+                        v, variant = ("(", {f1[0]: limit1(p, f1[3], gen_set_val(r, p, key, f1[0], f1[3], 2)), f2[0]: limit1(p, f2[3], gen_set_val(r, p, key, f2[0], f2[3], 2))}), "union2"
                 plan.append(("bc" if compact else "bb", p, key, st, v, variant))
             else:
                 plan.append(("rc" if compact else "rb", p, key, st, v, "model-bytes"))
